@@ -304,6 +304,14 @@ def oracle(case, impl, ref):
                 bad.append(("enable_once", "step %d: a joinpoint is advised more than once: %r" % (k, per_jp)))
         else:
             bad.append(("state_machine", "step %d: state %s visible between operations" % (k, s["st"])))
+    # an enable that is entitled to succeed does (F14 is the counter-example on the unrepaired code)
+    for k, (o, ent) in enumerate(zip(case["ops"], tr[1:]), 1):
+        prev, s = tr[k - 1]["snap"], ent["snap"]
+        forced = o["op"] in ("LoadFn", "ReloadExt") or (o["op"] == "LoadExt" and not prev["loaded"])
+        plain = o["op"] in ("Enable", "EnableAgain") and not prev["errored"]
+        if (forced or plain) and s["st"] != "ENABLED" and case.get("level") != "DEBUG":
+            bad.append(("enable_succeeds", "step %d (%s): state %s, errored=%s after an enable that should succeed (%s)"
+                        % (k, o["op"], s["st"], s["errored"], ent.get("escaped") or ent.get("escaped_msg") or "no exception")))
     last = tr[-1]["snap"]
     if case["ops"] and case["ops"][-1].get("op") == "Disable":
         for f in ("slots", "eff", "ast", "cleanup", "disablers", "ast_tr"):
